@@ -139,7 +139,7 @@ func init() {
 		},
 		Run:        runC14,
 		FaultKinds: []string{"growth_chunk_buggified", "shipped_chunk_long_history", "declaration_after_address_taken"},
-		ProbeNames: []string{"redeclarations", "parallel_redeclarations", "evaluations", "read_backs", "addresses_taken_of_integer_slots", "complex128_declared_after_address_taken", "declarations"},
+		ProbeNames: []string{"redeclarations", "parallel_redeclarations", "first_evaluation_is_a_switch", "evaluations", "read_backs", "addresses_taken_of_integer_slots", "complex128_declared_after_address_taken", "declarations"},
 		RealVsStub: []string{
 			"real: Interp.Eval (parse, compile, PrepareEnv/prepareEnv growth, NewBind slot assignment, address-taking), every evaluation is a separate top-level statement as in the REPL",
 			"stub: the tuning knob 'minimum growth of the global slot arrays' (hook H5); nothing else",
@@ -277,6 +277,13 @@ func runC14(t *testing.T, ch *sim.Choices, tier string) (o Outcome) {
 		return true
 	}
 	steps := 10 + gen.Draw(51)
+	if !shipped && gen.Draw(4) == 0 {
+		// a statement with a hidden temporary as the very first evaluation (no global exists yet)
+		o.probe("first_evaluation_is_a_switch", 1)
+		if !eval([]string{"switch (func() int { return 3 })() {\ncase 3:\n}", "switch x := (func() int { return 3 })(); x + 1 {\ncase 4:\n\tx++\n}"}[gen.Draw(2)], "") {
+			return
+		}
+	}
 	if shipped {
 		// fill the integer slots up to the shipped chunk, take an address, keep declaring
 		for i := 0; i < 1020; i++ {
